@@ -401,7 +401,7 @@ def check_no_lossy_cache(run, ix):
 
 
 # --------------------------------------------------------------------------- L-R1
-STR_METHODS = {'lower', 'upper', 'strip', 'rstrip', 'lstrip', 'replace', 'join', 'format'}
+STR_METHODS = {'lower', 'upper', 'strip', 'rstrip', 'lstrip', 'replace', 'join', 'format', 'ljust', 'rjust', 'zfill'}
 INT_STR_LIMIT_MIN = 640        # smallest value sys.set_int_max_str_digits accepts; the default is 4300
 
 
@@ -441,7 +441,7 @@ class StrKinds(object):
         if isinstance(e, ast.Call) and isinstance(e.func, ast.Attribute):
             if e.func.attr in STR_METHODS and self.of(e.func.value) in ('S', 'C', None):
                 return 'S' if (self.of(e.func.value) or e.func.attr in ('lower', 'strip', 'rstrip', 'lstrip',
-                                                                      'replace')) else None
+                                                                      'replace', 'ljust', 'rjust', 'zfill')) else None
             if e.func.attr == 'split':
                 return 'L'
         if isinstance(e, ast.Subscript):
